@@ -530,6 +530,7 @@ def execLine (s : Sess) (line : String) : StepOut :=
     | some k => withQuery s k false (fun q =>
         finish s (w.closeQuery q) (fun s q' => (setQuery s k q' false, "")))
     | none => badOp s
+  else if cmd == "gc" then { s := s, lines := [okLine ""] }
   else if cmd == "snapshot" then { s := s, lines := [okLine w.showSnapshot] }
   else if cmd == "shape" then
     match args with
